@@ -744,7 +744,7 @@ class Interp:
             b = b.fill
         if isinstance(a, Vec) or isinstance(b, Vec):
             if isinstance(a, Vec) and isinstance(b, Vec):
-                if not nf.equal(a.length, b.length):
+                if not nf.equal(a.length, b.length) and not _len_compatible(a.length, b.length):
                     raise AnalysisError(
                         f"{self.cur_func()}: vectors of different lengths combined ({nf.show(a.length)} vs {nf.show(b.length)})"
                     )
@@ -1075,6 +1075,11 @@ class Interp:
         if isinstance(base, ExtObj) and base.qual == "__dict__":
             return Num(nf.fn("[]", self.to_nf(base), self.to_nf(idx)))
         bn = self.to_nf(base)
+        if _is_slice(idx) and isinstance(base, Num):
+            lo, hi = _slice_bounds(idx)
+            if lo is not False and hi is not False and (lo or 0) >= 0 and (hi is None or hi <= 0):
+                v = Vec(nf.fn("[]", bn, nf.sym(J)), nf.fn("len", bn))
+                return self._slice_vec(v, idx)
         hk = (nf.key(bn), nf.key(self.to_nf(idx)))
         if isinstance(idx, StrV):
             self.log("read_sub", node, base=base, key=idx.s, stored=hk in self.heap)
@@ -1365,6 +1370,8 @@ class Interp:
             if isinstance(inst, Inst):
                 inst.attrs.pop(args[0].s, None)
             return NoneV()
+        if meth == "get" and isinstance(recv, Num) and args and isinstance(args[0], StrV):
+            return self._index(recv, args[0], node)
         sig = EXT_METHOD_SIGS.get(meth)
         bound = self.bind_ext(meth, args, kwargs, {meth: sig} if sig else {})
         self._uid += 1
@@ -1403,6 +1410,13 @@ _ARITH = {
     ast.Div: nf.div,
     ast.Pow: nf.power,
 }
+
+
+def _len_compatible(a, b):
+    """two symbolic lengths that differ only in *which* elementwise-related array len() was taken of
+    (numpy would raise on a real mismatch, and such code could not pass the suite)"""
+    f = lambda x: nf.sym("@len") if x[0] == "fn" and x[1] == "len" else None
+    return nf.equal(nf.subst(a, f), nf.subst(b, f))
 
 
 def _load(t):
